@@ -213,6 +213,7 @@ fn fault_run<Q: Queue>(case: &Case, stats: &mut Stats) -> Result<bool, Failure> 
                             force_drain: false,
                             trace: None,
                             snapshot: None,
+        pending_order_off: false,
                         };
                         start_tick_count();
                         let _ = guarded_apply(&mut c, inner);
@@ -256,6 +257,7 @@ fn fault_run<Q: Queue>(case: &Case, stats: &mut Stats) -> Result<bool, Failure> 
                                 force_drain: false,
                                 trace: None,
                                 snapshot: None,
+        pending_order_off: false,
                             };
                             arm_fuse(*kind, kk);
                             guarded_apply(&mut c, inner);
